@@ -192,10 +192,15 @@ class Shuffle(ShuffleBase):
         if npartitions_out < frame.npartitions and method != "p2p":
             frame = Repartition(frame, new_partitions=npartitions_out)
 
+        # ``ignore_index`` only permits dropping the index.  Whether it is dropped
+        # was declared by ``ShuffleBase._meta``, which cannot know a method that
+        # is only resolved here, so the implementation has to follow the meta
+        ignore_index = self.ignore_index and self.method == "tasks"
+
         ops = [
             self.partitioning_index,
             self.npartitions_out,
-            self.ignore_index,
+            ignore_index,
             self.options,
         ]
         if method == "p2p":
